@@ -72,6 +72,15 @@ class Ctx:
             self.cov['states'] += res.distinct
             self.cov['transitions'] += res.generated
 
+    def selftest_internal(self, exposed, what, **kw):
+        """A binding self-test that works by editing a PRIVATE table or helper of the module under test (to show that
+        the harness notices).  If the edit has no effect - the private name is gone or no longer consulted, as after a
+        refactoring - that says nothing about the property: it is recorded, not raised."""
+        if exposed:
+            self.stage('binding-selftest', ok=True, **kw)
+        else:
+            self.stage('binding-selftest', ok=False, note='not applicable to this tree: %s' % what, **kw)
+
     def stage(self, name, **kw):
         kw['stage'] = name
         kw['t'] = round(time.time() - self.t0, 2)
